@@ -578,6 +578,24 @@ inline void prop_c10(const vf::Case& c, Ctx& ctx)
         prelude(*w, h, ctx);
     if (h.coin())
         prelude_deep(*w, h, ctx);
+    if (h.below(12) == 0)
+    {
+        // a value far larger than anything else in the library (0.1 / 1.2 / 5 MB of text): the connection that wrote it and the
+        // connection that reads it back after reopening must agree on what fits
+        static const size_t sizes[] = {100000, 1200000, 5000000};
+        size_t nbytes = sizes[h.below(3)];
+        std::string big(nbytes, 'x');
+        for (size_t i = 0; i < nbytes; i += 7)
+            big[i] = static_cast<char>('a' + (i / 7) % 26);
+        dj::track_snapshot snap;
+        snap.relative_path = "big/value-" + std::to_string(nbytes) + ".mp3";
+        snap.comment = big;
+        dj::track t = w->db.create_track(snap);
+        w->issued_track_ids.insert(t.id());
+        w->tracks.push_back(TrackM{t, t.id(), true});
+        w->hist += " | track " + std::to_string(t.id()) + " with a comment of " + std::to_string(nbytes) + " bytes";
+        ctx.label("value>=100KB");
+    }
     int reopens = 0;
     bool rich = false;
     // close points: decoded from the header (up to three, anywhere in the history) plus always at the end
